@@ -361,7 +361,9 @@ def explore8(cfg: dict) -> dict:
         if n != 'tol':
             x = z3.FP(n, z3.Float64())
             fin.append(z3.And(z3.Not(z3.fpIsNaN(x)), z3.Not(z3.fpIsInf(x))))
-    ctx.assume(z3.And(*fin), 'all data finite (the linker has no errors policy of its own)')
+    if cfg['mode'] == 'wrapper' or cfg.get('finite', False):
+        ctx.assume(z3.And(*fin), 'all data finite (wrapper law: the linker has no errors policy of its own)')
+    # solve_t mode: every Float64 incl. NaN / inf -- a NaN move is not "less than tol", so the period must not be declared solved
     scen = _wrapper_scenario if cfg['mode'] == 'wrapper' else _scenario
     holder: dict = {}
 
